@@ -38,7 +38,9 @@ void oracle_misuse_op(const Op& op) {
     H.ops_noop++; return;
   }
   Block* b = (op.slot >= 0 && op.slot < (int)H.slots.size()) ? H.slots[op.slot] : nullptr;
-  if (!local_plain_small(b)) { H.ops_noop++; return; }
+  // the overflow check also applies to blocks of fewer than 8 bytes and to blocks that another thread allocated (checked on the cross-thread free path)
+  const bool overflow_ok = (op.code == OP_overflow_byte) && b && b->heap >= 0 && b->align == 0 && b->offset == 0 && !b->odd_origin && b->usable == b->req && b->req >= 1 && b->usable + 8 <= 8192 && b->filled;
+  if (!overflow_ok && !local_plain_small(b)) { H.ops_noop++; return; }
   mi_heap_t* h = heap_ptr(b->heap);
   if (op.code == OP_double_free) {
     // another live block of the same thread in the same 64 KiB page keeps the area alive
@@ -69,7 +71,9 @@ void oracle_misuse_op(const Op& op) {
     void* p = b->p; size_t req = b->req; delete b;
     H.misuse_expected++;
     expect_errors(EB_EFAULT);
+    T->misuse_in_progress = true;      // debug build: an internal assertion after the report (e.g. in _mi_padding_shrink on the cross-thread path) is outside the claim
     mi_free(p);
+    T->misuse_in_progress = false;
     int n = take_error(EB_EFAULT);
     if (n < 1) sim_violation("overflow_undetected", "a foreign byte written just past the requested size (%zu) of block %p was not reported when the block was freed", req, p);
     H.misuse_detected++; probe(PR_misuse_detected);
@@ -205,7 +209,14 @@ void oracle_purge_check(const Op& op) {
     const bool huge = w.usable > (16u << 20);
     // preconditions of the statement: unused for longer than the delay (op.c ms) and op.b rounds of ordinary activity since
     if (clock_now_ns() / 1000000ull - w.t_ms < op.c || H.activity_rounds - w.rounds_at_free < op.b) continue;
-    if (!huge) { bool has = false; for (auto b : H.sentinel_bases) if (b == (w.p & SEGMASK)) has = true; if (!has && delay > 0) continue; }
+    if (!huge) {
+      // page-level activity in the same segment after the free: a page free, or a fresh page that was not carved out of a span
+      // with a pending purge (that postpones the purge by design) -- recognised by lying above everything watched in the segment
+      uintptr_t top = 0; for (auto& x : H.watch) if ((x.p & SEGMASK) == (w.p & SEGMASK) && x.p + x.usable > top) top = x.p + x.usable;
+      bool has = false;
+      for (size_t i = 0; i < H.sentinel_bases.size(); i++) if (H.sentinel_bases[i] == (w.p & SEGMASK) && (H.sentinel_alloc_addr[i] == 0 || H.sentinel_alloc_addr[i] >= top)) has = true;
+      if (!has && delay > 0) continue;
+    }
     // every 64 KiB unit completely inside the freed block must be covered by a purge-type call issued after the free
     uintptr_t u0 = (w.p + 65535) & ~(uintptr_t)65535, u1 = (w.p + w.usable) & ~(uintptr_t)65535;
     for (uintptr_t u = u0; u + 65536 <= u1; u += 65536) {
